@@ -54,9 +54,11 @@ func (a *ConstFuncParamAnnotator) VisitFuncDecl(decl *ast.FuncDecl) ast.VisitRes
 	if ast.IsGeneric(decl) {
 		for _, instantiations := range decl.Generic.Instantiations {
 			for _, instantiation := range instantiations {
-				a.VisitFuncDecl(instantiation)
+				// walk the body of the instantiation, only then its assignments are seen
+				ast.VisitNode(a, instantiation, nil)
 			}
 		}
+		a.currentDecl = nil
 		return ast.VisitRecurse
 	}
 
